@@ -17,6 +17,12 @@ CHECKS = {
   text="Streams of 1-3 (thorough: 4) NAL units with every size 1..20 (26), every start-code length pattern in {3,4}^n and three content classes (filler, interior zeros, interior 00 00 03), plus all type sequences of length <= 4 over the AVC and HEVC type alphabets, are pushed through ExtractNalusFromByteStream, ConvertByteStreamToNaluSample, ConvertSampleToByteStream, GetNalusFromSample, FindNaluTypes[UpToFirstVideo], ContainsNaluType, IsIDR/IsRAP, HasParameterSets, GetParameterSets[FromByteStream], ExtractNalusOfTypeFromByteStream and GetFirstAVCVideoNALUFromByteStream; every result must equal what the generating unit list implies.",
   note="Well-formed streams only (units non-empty, emulation-free, last byte non-zero, NAL type 0 excluded). Sizes are bounded; the word-at-a-time scanner is exercised at every alignment modulo 8 and every tail length.",
   design="3 C14"),
+ "C15": dict(
+  engine="E3 product enumerator",
+  technique="exhaustive k-deviation enumeration of SPS/PPS/slice-header field vectors serialised by independent reference writers of the H.264/H.265 syntax (cross-checked bit-exactly against captured parameter sets) and parsed by the library; every coded field, cropping formula, id resolution, header size, configuration record and codec string compared",
+  text="A base field vector per codec (SPS + PPS + slice header with pps id != sps id and decoy parameter sets under the crossed ids) and 107 AVC / 98 HEVC named deviations, each setting one syntax feature to a branch-covering value. Every subset of <= 3 (thorough: <= 4, 7.9M cases) deviations touching different fields is serialised by ref/h264syn / ref/h265syn and parsed by avc/hevc ParseSPSNALUnit, ParsePPSNALUnit, ParseSliceHeader; CreateAVCDecConfRec / CreateHEVCDecConfRec and CodecString are compared with the SPS values and the NAL units verbatim.",
+  note="Exhaustive over the stated k-subsets of the deviation list, not over all field values. HEVC multilayer/3D/SCC extensions and AVC SVC/MVC are outside the modelled syntax. Two AVC known findings (signed poc-type-1 offsets; slice_group_change_cycle length) are listed in known_findings.txt.",
+  design="3 C15"),
  "C01": dict(
   engine="E1 box-space search (explicit-state over byte strings, isolated workers)",
   technique="explicit-state search: states = accepted byte strings reached from ~1000 box seeds and ~40 file seeds by single deviations (byte, struct and tree level); oracle on every state: re-encode == input outside the committed don't-care list, re-decode deep-equal, re-encode fixed point",
